@@ -53,7 +53,7 @@ pub struct StageResult {
 
 fn catalogue(tree: &Tree) -> Vec<Derive> {
     let mut v = vec![];
-    for q in tree.fixtures.iter().filter(|f| !f.is_schema && !f.big) {
+    for q in tree.fixtures.iter().filter(|f| !f.is_schema && !f.big && !f.deepbad) {
         for s in tree.fixtures.iter().filter(|f| f.is_schema && f.dir == q.dir && !f.big) {
             for op in &q.ops {
                 v.push(Derive {
